@@ -219,7 +219,7 @@ def run(ctx):
     # ---- R2 who-may-call
     callers = F.callers()
     cr = [c for c in callers.get('model::mods::GameMods::clock_rate', [])]
-    allowed = re.compile(r'^(any::difficulty::Difficulty::get_clock_rate|model::beatmap::attributes::BeatmapAttributesBuilder::(hit_windows|build)(::\{closure#\d+\})?)$')
+    allowed = re.compile(r'^(any::difficulty::Difficulty::get_clock_rate|model::beatmap::attributes::BeatmapAttributesBuilder::(hit_windows|build))(::\{closure#\d+\})?$')
     for fn, bi, t in cr:
         ctx.require(bool(allowed.match(fn.path)) or fallback_of_override(F, fn, bi), 'C08-R2', 'clock_rate-caller:' + fn.path, 'GameMods::clock_rate called from %s (override-aware)' % fn.path, fn.where(t['ln']),
                     bad='%s reads the mods\' clock rate directly: an explicit Difficulty::clock_rate override is ignored there' % fn.path)
@@ -269,6 +269,16 @@ def run(ctx):
             'std::fmt::Debug', 'std::clone::Clone', 'std::cmp::PartialEq', 'std::default::Default'))) and not (fn.kind == 'Closure' and fn.path.startswith('any::difficulty::Difficulty::get_' + fld))
                # the inspection view may be produced by `Difficulty::inspect` or by its `From<Difficulty>` twin
                and not (fn.impl_trait == 'std::convert::From' and ((fn.impl_self or {}).get('s') or '').endswith('InspectDifficulty'))]
+        # a private `&self` accessor of the slot is fine when everybody who calls it is an allowed reader itself
+        def _accessor_ok(fn_):
+            if fn_.self_adt != DIFF or fn_.kind != 'AssocFn' or str(fn_.j.get('vis')).startswith('Public'):
+                return False
+            cs = callers.get(fn_.path, [])
+            okc = lambda c: c.self_adt == DIFF and (c.name in ('get_' + fld, 'inspect', fld) or c.impl_trait in ('std::fmt::Debug', 'std::cmp::PartialEq')) or \
+                (c.kind == 'Closure' and c.path.startswith('any::difficulty::Difficulty::get_' + fld)) or \
+                (c.impl_trait == 'std::convert::From' and ((c.impl_self or {}).get('s') or '').endswith('InspectDifficulty'))
+            return bool(cs) and all(okc(c[0]) for c in cs)
+        bad = [fn for fn in bad if not _accessor_ok(fn)]
         for fn in bad:
             ctx.violation('C08-R2', 'field-read:%s:%s' % (fld, fn.path), '%s reads Difficulty.%s directly instead of through get_%s (mods fallback bypassed)' % (fn.path, fld, fld), fn.where())
         ctx.ok('C08-R2', 'field-read:' + fld, 'Difficulty.%s is read only by %s' % (fld, sorted({fn.path.split('::')[-1] if fn.kind != 'Closure' else 'closure' for fn in readers})))
@@ -276,7 +286,9 @@ def run(ctx):
     g = F.method(DIFF, 'get_clock_rate', inherent_only=True)
     if g is not None:
         import combin
-        rv = combin.expand(F, prov.prov_of(g).return_value())
+        rv = prov.inline_all(F, prov.prov_of(g).return_value(), depth=1, _seen=(g.path,), only=lambda f_: (f_.get('impl_adt') or '') == DIFF and not f_.get('trait') and
+                             not str((F.fn(f_.get('path') or '') or g).j.get('vis')).startswith('Public'))
+        rv = combin.expand(F, rv)
         has_fb = any(x[0] == 'call' and prov.callee(x) == 'model::mods::GameMods::clock_rate' and as_param_path(x[2][0]) == (1, ('mods',)) for x in prov.walk(rv, limit=300))
         has_ov = any(as_param_path(x) == (1, ('clock_rate',)) or (as_param_path(x) or (0, ()))[1][:1] == ('clock_rate',) for x in prov.walk(rv, limit=300) if x[0] in ('field', 'variant'))
         ctx.require(has_fb and has_ov, 'C08-R2', 'get_clock_rate', 'get_clock_rate = explicit override, else self.mods.clock_rate()', g.where(),
